@@ -315,4 +315,30 @@ func runC05(c *Ctx) {
 			r.Sample(steps)
 		}
 	}
+	// (iii) directed: NICK between spellings that are / are not the same identity under the RFC1459 fold (ASCII case
+	// AND [ ] \ ^ vs { } | ~), for a user in two channels next to another user whose nick collides; then the renamed user leaves
+	spell := []string{"d[x]", "D{X}", "d{x}", "D[X]", "a^b", "A~B", "x\\y", "X|Y", "bob", "BOB", "carl"}
+	for i, from := range spell {
+		for j, to := range spell {
+			if c.Tier != "thorough" && (i*len(spell)+j+int(c.R.Seed))%3 != 0 {
+				continue
+			}
+			steps := []string{"R:srv 001 me :Welcome", "R:me!u@h JOIN #a", "R:srv 353 me = #a :me @" + from + " +carl",
+				"R:me!u@h JOIN #b", "R:srv 353 me = #b :me " + from + " @BOB",
+				"R:" + from + "!u@h NICK " + to, "D",
+				"R:" + c.Rng.Pick([]string{to, from, lowerRFC(to)}) + "!u@h " + c.Rng.Pick([]string{"PART #a", "QUIT :bye", "PART #b", "NICK " + from}), "D",
+				"R:me!u@h PART #a", "D"}
+			run(steps, "rename-spellings")
+		}
+	}
+	// (iv) directed: malformed ISUPPORT values for the tokens the tracker consumes, then the events that use them
+	for _, tok := range []string{"PREFIX=(", "PREFIX=()", "PREFIX=)", "PREFIX=)(", "PREFIX=(o", "PREFIX=(o)", "PREFIX=(ov)@", "PREFIX=(o)@+", "PREFIX=",
+		"PREFIX", "PREFIX=((ov))@+", "PREFIX=(ov)@+x", "PREFIX=(qaohv)~&@%+", "PREFIX=@+", "PREFIX=(ov)", "PREFIX=(\x01)\x01",
+		"CHANMODES=", "CHANMODES=,", "CHANMODES=,,,", "CHANMODES=b,k,l", "CHANMODES=b,k,l,imn,extra", "CHANMODES=(", "CHANMODES=beI,k,l,imnpst,",
+		"CHANMODES=b k", "CHANTYPES=", "NICKLEN=", "NICKLEN=-1", "NICKLEN=99999999999999999999", "LINELEN=0", "LINELEN=-5", "LINELEN=2", "HOSTLEN=x", "USERLEN=0"} {
+		steps := []string{"R:srv 001 me :Welcome", "R:srv 005 me " + tok + " :are supported by this server", "D",
+			"R:me!u@h JOIN #n", "D", "R:srv 353 me = #n :me @bob +carl ~dan &eve %fay @+gus", "D",
+			"R:srv MODE #n +ov-v bob carl gus", "R:srv 324 me #n +ntkl key 5", "D", "R:bob!u@h PRIVMSG #n :hi", "D"}
+		run(steps, "isupport-malformed")
+	}
 }
